@@ -35,7 +35,7 @@ CONFIG = {
 REQUIRED = ['mixed_batches_checked', 'fast_gradient_called_before_predict', 'bolfi_surrogate_order_permuted', 'bolfi_sampling_phases', 'bolfi_second_phase_after_update', 'bolfi_logpdf_points', 'bolfi_fast_predict_checked',
             'bolfi_fast_gradient_checked', 'contract_logpdf', 'contract_predict', 'gps_fitted', 'logpdf_definition_checked', 'logpdf_outside_checked', 'logpdf_on_bound_checked', 'gradient_checked',
             'fastpath_predict_checked', 'fastpath_gradient_checked', 'evidence_order_checked', 'fast_after_update_without_slow_call',
-            'shape_scalar_or_1d', 'shape_2d', 'far_tail_gradient_checked', 'default_threshold', 'gradient_integer_typed_checked', 'fastpath_noiseless_checked']
+            'shape_scalar_or_1d', 'shape_2d', 'far_tail_gradient_checked', 'default_threshold', 'gradient_integer_typed_checked', 'fastpath_noiseless_checked', 'fastpath_queries_through_a_reused_buffer']
 
 
 def gen_cases(ctx):
@@ -91,6 +91,12 @@ def _compare_fast(ctx, gp, x, where):
         return
     vtol = scale * max(1e-8, 100 * np.finfo(float).eps * cond)
     x2 = np.asarray(x, dtype=float).reshape(1, -1)
+    # as a sampler does, the accelerated calls get ONE array object that is moved in place from query to query
+    bufs = ctx.__dict__.setdefault('c10_bufs', {})
+    buf = bufs.setdefault(x2.shape[1], np.zeros(x2.shape[1]))
+    buf[...] = x2[0]
+    x = buf
+    ctx.event('fastpath_queries_through_a_reused_buffer')
     mu_ref, var_ref = gp._gp.predict(x2)
     gm_ref, gv_ref = gp._gp.predictive_gradients(x2)
     gm_ref = gm_ref[:, :, 0]
@@ -107,8 +113,19 @@ def _compare_fast(ctx, gp, x, where):
             mu, var = gp.predict(x)
             gm, gv = gp.predictive_gradients(x)
         mu_nl, var_nl = gp.predict(x, noiseless=True)
+        # a second query in the same sampling phase: the caller's array has moved on in place (x += step)
+        step = 0.37 * (1.0 + np.abs(x2[0]))
+        buf += step
+        mu_b, var_b = gp.predict(buf)
+        x3 = np.array(buf, dtype=float).reshape(1, -1)
+        buf -= step
     finally:
         gp.is_sampling = prev
+    mu_b_ref, var_b_ref = gp._gp.predict(x3)
+    if not np.allclose(np.ravel(mu_b), np.ravel(mu_b_ref), rtol=1e-7, atol=max(1e-9, 100 * np.finfo(float).eps * cond) * (1 + abs(float(np.ravel(mu_b_ref)[0])))) or \
+            not np.allclose(np.ravel(var_b), np.ravel(var_b_ref), rtol=1e-6, atol=vtol):
+        raise Violation('fastpath-second-query', '%s: second accelerated prediction of the phase, at %r (query array moved in place): mean %r variance %r, library %r / %r' % (
+            where, x3[0], np.ravel(mu_b), np.ravel(var_b), np.ravel(mu_b_ref), np.ravel(var_b_ref)), {'x': x3[0]})
     # the noise-free prediction through the accelerated path must be the library's noise-free prediction
     mu_nl_ref, var_nl_ref = gp._gp.predict_noiseless(x2)
     ctx.event('fastpath_noiseless_checked')
